@@ -5341,6 +5341,7 @@ class PyCdlib:
         # Checks complete, we can go on to make the symlink.
 
         num_bytes_to_add = 0
+        joliet_added = False
 
         if symlink_path is not None:
             symlink_path_bytes = utils.normpath(symlink_path)
@@ -5370,6 +5371,8 @@ class PyCdlib:
                 num_bytes_to_add += self._add_fp(None, 0, False, symlink_path,
                                                  '', tmp_joliet_path, '', None,
                                                  False)
+                # The zero-byte file above already carries the Joliet entry.
+                joliet_added = bool(tmp_joliet_path)
 
             udf_symlink_path_bytes = utils.normpath(udf_symlink_path)
 
@@ -5411,7 +5414,7 @@ class PyCdlib:
             # rm_file() to remove the ISO9660 record, and rm_hard_link() to
             # remove the UDF record.
 
-        if joliet_path is not None:
+        if joliet_path is not None and not joliet_added:
             if self.joliet_vd is None:
                 raise pycdlibexception.PyCdlibInternalError('Tried to add a Joliet path to a non-Joliet ISO')
             joliet_path_bytes = self._normalize_joliet_path(joliet_path)
